@@ -41,6 +41,8 @@ QUICK = [
     'pony.orm.sqltranslation:SQLTranslator.init',
     'pony.orm.sqltranslation:SQLTranslator.dispatch',
     'pony.orm.sqltranslation:SQLTranslator.dispatch_external',
+    # the pass that annotates the (process-wide, cached) syntax tree of a query in place
+    'pony.orm.asttranslation:PreTranslator.dispatch',
 ]
 
 THOROUGH_EXTRA = [
@@ -54,7 +56,6 @@ THOROUGH_EXTRA = [
     'pony.orm.dbproviders.sqlite:SQLiteProvider.commit',
     'pony.orm.dbproviders.sqlite:SQLiteProvider.rollback',
     'pony.orm.dbproviders.sqlite:SQLiteProvider.release_lock',
-    'pony.orm.asttranslation:PreTranslator.dispatch',
 ]
 
 
